@@ -14,14 +14,38 @@ func NewPrintReporter returns (pr)
   ensures @fresh pr != nil && fresh(pr) && pr.output != nil && fresh(pr.output) && pr.dateFormat == config.DateFormat
   ensures @sink [C17] bufSink == store(old(bufSink), pr.output, payload(config.Output)) && bufSticky == store(old(bufSticky), pr.output, false)
 
+// The normal form of one record (C14): the heading in the reporter's date layout, then every note (name and value,
+// or the bare text), then every entry with its name and its quantity (formatted with two decimals), then a blank
+// line - nothing is left out, nothing is altered before formatting. Operands of the prints are recorded in prArgs.
+pred PrintedStr(k int, j int, v string) := typeis(prArgs[k][j], "string") && cellat(string, payload(prArgs[k][j])) == v
+pred PrintedF(k int, j int, v float64) := typeis(prArgs[k][j], "float64") && cellat(float64, payload(prArgs[k][j])) == v
+
 func (PrintReporter).Process returns (err)
   props C17 C08 C14
   requires @args ln != nil && pr.output != nil
   modifies ghost(bufSticky, sinkFailed, sinkPend, prLen, prSink, prArg, prArgs)
+  let NM := if ln.Metadata == nil then 0 else len(*ln.Metadata)
+  let NE := len(ln.Elements)
+  let B := prLen
   ensures @sink [C17] BufStep(pr.output)
   ensures @reports-loss [C17] err == nil ==> bufSticky[pr.output] == old(bufSticky[pr.output])
-  loop 1 { invariant @sink ln == old(ln) && pr == old(pr) && BufStep(pr.output) && bufSticky[pr.output] == old(bufSticky[pr.output]) }
-  loop 2 { invariant @sink ln == old(ln) && pr == old(pr) && BufStep(pr.output) && bufSticky[pr.output] == old(bufSticky[pr.output]) }
+  ensures @line-count [C14] err == nil ==> prLen == B + 1 + NM + NE + 1
+  ensures @heading [C14] err == nil ==> PrintedStr(B, 0, FormatTime(ln.Time, pr.dateFormat))
+  ensures @notes [C14] err == nil ==> (forall k int :: {prArgs[k]} B + 1 <= k && k < B + 1 + NM ==> (if (*ln.Metadata)[k - B - 1].Name != "" then PrintedStr(k, 0, (*ln.Metadata)[k - B - 1].Name) && PrintedStr(k, 1, (*ln.Metadata)[k - B - 1].Value) else PrintedStr(k, 0, (*ln.Metadata)[k - B - 1].Value)))
+  ensures @entries [C14] err == nil ==> (forall k int :: {prArgs[k]} B + 1 + NM <= k && k < B + 1 + NM + NE ==> PrintedStr(k, 0, ln.Elements[k - B - 1 - NM].Name) && PrintedF(k, 1, ln.Elements[k - B - 1 - NM].Value))
+  loop 1 {
+    invariant @sink ln == old(ln) && pr == old(pr) && BufStep(pr.output) && bufSticky[pr.output] == old(bufSticky[pr.output]) && ln.Metadata != nil && NM == len(*ln.Metadata)
+    invariant @count prLen == B + 1 + #i
+    invariant @heading PrintedStr(B, 0, FormatTime(ln.Time, pr.dateFormat)) && payload(prArgs[B][0]) < alloc() && payload(prArgs[B][0]) >= old(alloc())
+    invariant @notes forall k int :: {prArgs[k]} B + 1 <= k && k < prLen ==> (if (*ln.Metadata)[k - B - 1].Name != "" then PrintedStr(k, 0, (*ln.Metadata)[k - B - 1].Name) && PrintedStr(k, 1, (*ln.Metadata)[k - B - 1].Value) else PrintedStr(k, 0, (*ln.Metadata)[k - B - 1].Value)) && payload(prArgs[k][0]) < alloc() && payload(prArgs[k][0]) >= old(alloc()) && ((*ln.Metadata)[k - B - 1].Name != "" ==> payload(prArgs[k][1]) < alloc() && payload(prArgs[k][1]) >= old(alloc()))
+  }
+  loop 2 {
+    invariant @sink ln == old(ln) && pr == old(pr) && BufStep(pr.output) && bufSticky[pr.output] == old(bufSticky[pr.output])
+    invariant @count prLen == B + 1 + NM + #i
+    invariant @heading PrintedStr(B, 0, FormatTime(ln.Time, pr.dateFormat)) && payload(prArgs[B][0]) < alloc() && payload(prArgs[B][0]) >= old(alloc())
+    invariant @notes forall k int :: {prArgs[k]} B + 1 <= k && k < B + 1 + NM ==> (if (*ln.Metadata)[k - B - 1].Name != "" then PrintedStr(k, 0, (*ln.Metadata)[k - B - 1].Name) && PrintedStr(k, 1, (*ln.Metadata)[k - B - 1].Value) else PrintedStr(k, 0, (*ln.Metadata)[k - B - 1].Value)) && payload(prArgs[k][0]) < alloc() && payload(prArgs[k][0]) >= old(alloc()) && ((*ln.Metadata)[k - B - 1].Name != "" ==> payload(prArgs[k][1]) < alloc() && payload(prArgs[k][1]) >= old(alloc()))
+    invariant @entries forall k int :: {prArgs[k]} B + 1 + NM <= k && k < prLen ==> PrintedStr(k, 0, ln.Elements[k - B - 1 - NM].Name) && PrintedF(k, 1, ln.Elements[k - B - 1 - NM].Value) && (forall j int :: {prArgs[k][j]} 0 <= j && j < 2 ==> payload(prArgs[k][j]) < alloc() && payload(prArgs[k][j]) >= old(alloc()))
+  }
 
 func (PrintReporter).Flush returns (err)
   props C17 C08
@@ -38,7 +62,7 @@ func Print returns (err)
   props C08 C09 C10 C17
   requires @sink pc.ReporterConfig.Output != nil && !typeis(pc.ReporterConfig.Output, "*bufio.Writer") && !typeis(pc.ReporterConfig.Output, "*encoding/csv.Writer")
   modifies *
-  modifies ghost(cbLen, cbErr, cbNode, cbStop, cbRet, cbLineNo, cbLine, cbHeader, cbElems, cbNElems, scRd, scPos, privLo, evOf, accKey, accP, accN, accH, bufSink, bufSticky, sinkFailed, sinkPend, prLen, prSink, prArg, prArgs, tnodes, tdepth, tmax, tmapOf, jlen)
+  modifies ghost(cbLen, cbErr, cbNode, cbStop, cbRet, cbLineNo, cbLine, cbHeader, cbElems, cbNElems, scRd, scPos, privLo, evOf, accKey, accP, accN, accH, bufSink, bufSticky, sinkFailed, sinkPend, prLen, prSink, prArg, prArgs, csvLen, csvW, csvN, csvRow, tnodes, tdepth, tmax, tmapOf, jlen)
   let out := payload(pc.ReporterConfig.Output)
   let rd := payload(logStream)
   let cc := pc.ParserConfig.CommentChar
